@@ -81,7 +81,7 @@ def main():
         finally:
             pony.MODE = old_mode
         out['tests'].append({'name': 'interactive mode (no db_session): a lost update is refused with OptimisticCheckError', 'got': got,
-                             'want': 'OptimisticCheckError', 'as_coded': 'AttributeError', 'finding': 'interactive-mode:AttributeError-instead-of-OptimisticCheckError'})
+                             'want': 'OptimisticCheckError', 'as_coded': 'OptimisticCheckError', 'finding': 'interactive-mode:AttributeError-instead-of-OptimisticCheckError'})
         # DELETE carries no optimistic criteria (_save_deleted_): pinned behaviour, outside the statement ("an update of an object")
         del S.TRACE[:]
         with orm.db_session:
